@@ -111,6 +111,9 @@ def persistence(ctx, rep, rule: str) -> None:
                 rep.ob(rule, f"carried:{name}", ok, fi.loc(node), f"`{name}` is assigned in {short(q)} on the step path" + (f"; derived cache: {DERIVED_CACHES[name]}" if ok else " — it carries information from one step to the next but is neither optimizer state (self.state) nor a listed derived cache: the checkpoint does not contain it"), sample=(n % 6 == 0))
     rep.floor(rule, "assignments on the step path", n, 15)
     bias_correction_every_step(ctx, rep, rule)
+    from .c03 import eigenbasis_evidence_is_the_blocks_own
+
+    rep.attempt("eigenbasis_evidence", eigenbasis_evidence_is_the_blocks_own, ctx, rep, rule)
     # in-place writes on the step path hit state, parameters, gradients, communication buffers or fresh tensors only
     ds_objs = pts.objects_of_class(DS)
     persistent: set = set()
